@@ -663,6 +663,23 @@ func (r *srcRun) runFlags(which string) {
 		res, verr := src.Value(context.Background(), dials.NewType(r.ptyp))
 		before := len(r.mis)
 		r.judge(which, "C12", res, verr, r.c.Garbage != "" || !judged)
+		if r.c.Garbage == "" && verr == nil {
+			// C02 when the template is also what the caller passes to Config as defaults (what ez does): Config calls
+			// Value, and nothing may be written into the caller's struct
+			snap := reflect.New(r.typ)
+			r.fillDefaults(r.c.Fields, snap.Elem())
+			if !reflect.DeepEqual(tmpl, snap.Interface()) {
+				what := ""
+				for _, l := range r.c.Expect.Leaves {
+					a, _ := r.locate(tmplV, l.ID)
+					b, _ := r.locate(snap, l.ID)
+					if a.IsValid() && b.IsValid() && !reflect.DeepEqual(a.Interface(), b.Interface()) {
+						what += fmt.Sprintf(" leaf %d (%s): %v -> %v;", l.ID, l.Kind, b.Interface(), a.Interface())
+					}
+				}
+				r.add("C02", which, "parsing the flags wrote into the caller's template (the defaults, when the same struct is passed to Config):%s", what)
+			}
+		}
 		if len(r.mis) > before && r.c.Garbage == "" {
 			var names []string
 			if fs, ok := src.(*dflag.Set); ok {
